@@ -13,7 +13,9 @@ META = {
         "text": "Each clause of C08 is a step predicate of ReplFetcher.tla. TLC checks them on every behaviour of the implementation-shaped model up to the depth bound "
                 "(all interleavings of advertisements, completions, early completions, range/fullness updates, per-entry timer expiries) and on random deep behaviours; "
                 "those behaviours plus driver-generated random ones over a larger universe are executed on the real fetcher (limit 20 reached by 18 filler fetches) and "
-                "each real step is judged by the same operators; the model's step relation is the drift predicate. Progress is checked as liveness on the model and as bounded rounds on the code.",
+                "each real step is judged by the same operators; the model's step relation is the drift predicate. Progress is checked as liveness on the model and as bounded rounds on the code. "
+                "The fullness and range limits are also followed into a REAL node (NodeLink.tla): a node built by build_node has its store filled to the shipped 16384-record capacity through the "
+                "real PutLocalRecord handler, and advertisements delivered through the real Cmd::Replicate handler before/after a farther record was refused and the range was handed over are judged by the node-level clauses.",
         "note": "trusted: TLC; the driver's id mapping (own SHA-256/XOR ranking); deadlines aged per entry through hook H3 instead of waiting 20 s/900 s; HashMap tie order among same-key entries is modelled as nondeterminism",
         "design_ref": "5 Area ReplFetcher",
     }
@@ -68,10 +70,39 @@ def model_phase(v, w, thorough, scn_path):
     write_ndjson(scn_path, scns)
 
 
+def node_link(v, w, seeds, with_model=True):
+    """The store / fetcher link of a real node (cmd.rs): full store => fetcher limited; range handed over."""
+    if with_model:
+        mc = tlc("replfetcher", "NodeLink", "NodeLink.cfg", w, workers=4, timeout=600)
+        v.add_model(mc)
+        if mc.violated:
+            v.violation("model:" + mc.violated, "the model of the store/fetcher link falsifies a clause",
+                        {"area": "replfetcher", "tlc": mc.error_text[:6000]})
+    adverts = 0
+    for sd in seeds:
+        trace = os.path.join(w, "nodelink-%d.ndjson" % sd)
+        run_driver("drv_nodelink", ["--out", trace, "--work", w], w, env={"VERIF_SEED": str(sd)})
+        rep = validate_trace("replfetcher", "NodeLinkTrace", "NodeLinkTrace.cfg", trace, w, timeout=600)
+        events = read_ndjson(trace)
+        adverts += sum(1 for e in events if e["ev"] == "Advert")
+        for x in rep["violations"]:
+            e = events[x["line"] - 1]
+            if x["clause"] == "Malformed":
+                raise ToolError("malformed node-link trace line %d: %s" % (x["line"], e))
+            v.violation(x["clause"] + "(node)", "real node with a store at capacity, trace line %d: %s" % (x["line"], json.dumps(e)[:600]),
+                        {"area": "replfetcher", "nodelink_seed": sd, "event": e})
+    v.cov["node_link_adverts"] = adverts
+    v.cov["node_link_runs"] = len(seeds)
+
+
 def run(prop, tier, replay=None):
     v = Verdict(prop, tier, replaying=replay is not None)
     w = workdir(prop)
     thorough = tier == "thorough"
+    if replay and "nodelink_seed" in replay:
+        build(PACKAGES)
+        node_link(v, w, [replay["nodelink_seed"]], with_model=False)
+        return v.finish()
     scn_path = os.path.join(w, "scenarios.ndjson")
     if replay:
         write_ndjson(scn_path, [replay["scenario"]])
@@ -132,6 +163,8 @@ def run(prop, tier, replay=None):
                        [{k: e[k] for k in ("ev", "h", "list", "held", "k", "t", "ret", "failed", "og", "tf", "src")} for e in steps[:3]]
     v.cov["impl_stats"] = rep.get("stats")
     v.cov["rounds_runs"] = sum(1 for e in events if e["ev"] == "RoundsDone")
+    if not replay:
+        node_link(v, w, [seed() * 100 + i for i in range(6 if thorough else 2)])
     v.cov["exhaustive"] = False
     v.assumptions = ["advertisement lists are sets (no duplicate (key,type) inside one list)",
                      "deadlines are aged entry-wise through the hook; real 20 s / 900 s timers are not awaited",
